@@ -5,8 +5,8 @@ import json, os, re, sys
 log = sys.argv[1] if len(sys.argv) > 1 else '/tmp/seedcheck_full.log'
 rows = []
 cur = None
-for line in open(log):
-    m = re.match(r'^(C\d+-[mn]\d+): (.*)$', line.rstrip())
+for line in open(log, errors='replace'):
+    m = re.match(r'^(C\d+-[mnp]\d+): (.*)$', line.rstrip())
     if m:
         cur = {'seed': m.group(1), 'hits': m.group(2), 'rules': []}
         rows.append(cur)
